@@ -31,6 +31,7 @@ func init() {
 			{ID: "C12.10", Desc: "an accessor that reports a directive as present hands out its argument in either spelling (token or quoted-string)", Run: ruleC12_10, MinSites: 1},
 			{ID: "C12.8", Desc: "saturated delta-seconds stay saturated in later sums", Run: func(c *Ctx) { ruleDurationSums(c, "C12.8") }, MinSites: 2},
 			{ID: "C12.7", Desc: "in the list splitter an escaped character is consumed before quotes and commas are interpreted", Run: ruleC12_7, MinSites: 1},
+			{ID: "C12.13", Desc: "a backslash outside a quoted-string escapes nothing", Run: func(c *Ctx) { ruleEscapeOnlyInQuotes(c, "C12.13") }, MinSites: 1},
 		},
 	})
 }
@@ -706,6 +707,7 @@ func ruleC12_11(c *Ctx) {
 		seen[col] = true
 		n++
 		updates := 0
+		inDuplicate := 0
 		bad := ""
 		for _, g := range c.reachableFrom(col) {
 			if g != col && !lexicallyInside(g, col) {
@@ -717,20 +719,24 @@ func ruleC12_11(c *Ctx) {
 					return
 				}
 				updates++
-				if k, isC := constStr(mu.Value); isC && k == "" {
-					return
-				}
 				guarded := false
 				for _, dc := range dominatingConds(mu.Block()) {
 					for _, lf := range condLeaves(dc.cond, dc.onTrue) {
 						ex, ok := lf.v.(*ssa.Extract)
-						if !ok || lf.val {
+						if !ok {
 							continue
 						}
 						if lk, ok := ex.Tuple.(*ssa.Lookup); ok && lk.CommaOk && c.An.sameCanon(lk.Index, mu.Key) {
-							guarded = true
+							if lf.val {
+								inDuplicate++
+							} else {
+								guarded = true
+							}
 						}
 					}
+				}
+				if k, isC := constStr(mu.Value); isC && k == "" {
+					return
 				}
 				if !guarded {
 					bad = c.P.InstrPos(mu) + ": stores the argument whether or not the directive is already in the map"
@@ -738,6 +744,21 @@ func ruleC12_11(c *Ctx) {
 			})
 		}
 		key := "first-occurrence fn=" + c.P.ShortName(col)
+		if updates == 0 {
+			// a function that only hands on what another collector below it built is judged there
+			forwards := false
+			for _, g := range c.reachableFrom(col) {
+				for _, other := range collectors {
+					if g == other && other != col {
+						forwards = true
+					}
+				}
+			}
+			if forwards {
+				n--
+				continue
+			}
+		}
 		switch {
 		case updates == 0:
 			c.Fail("C12.11", key, desc, c.P.ShortName(col)+": the pairs are collected by a library helper (last occurrence wins); `max-age=0, max-age=3600` is fresh for an hour and `no-cache, no-cache=\"X-Foo\"` loses its unqualified no-cache")
@@ -745,6 +766,17 @@ func ruleC12_11(c *Ctx) {
 			c.Fail("C12.11", key, desc, bad+"; `max-age=0, max-age=3600` is fresh for an hour and `no-cache, no-cache=\"X-Foo\"` loses its unqualified no-cache")
 		default:
 			c.Pass("C12.11", key, desc, fmt.Sprintf("%s: %d guarded update(s)", c.P.ShortName(col), updates))
+		}
+		// with the first occurrence kept, the order of `no-cache` and `no-cache="X-Foo"` decides the outcome unless the
+		// repeated occurrence can still change the entry (the bare form wins wherever it stands)
+		key2 := "repeated-bare-form fn=" + c.P.ShortName(col)
+		desc2 := "a repeated directive can still replace the recorded argument (the bare form of no-cache / private wins in any order)"
+		if updates > 0 && bad == "" {
+			if inDuplicate == 0 {
+				c.Fail("C12.11", key2, desc2, c.P.ShortName(col)+": a repeated directive is skipped altogether; `no-cache=\"X-Foo\", no-cache` keeps the qualified form and the response is reused without validation, while `no-cache, no-cache=\"X-Foo\"` is validated")
+			} else {
+				c.Pass("C12.11", key2, desc2, fmt.Sprintf("%s: %d update(s) in the repeated-directive branch", c.P.ShortName(col), inDuplicate))
+			}
 		}
 	}
 	if n == 0 {
